@@ -5,6 +5,7 @@ go 1.22.0
 require golang.org/x/tools v0.29.0
 
 require (
+	github.com/anishathalye/porcupine v1.3.0
 	golang.org/x/mod v0.22.0 // indirect
 	golang.org/x/sync v0.10.0 // indirect
 )
